@@ -8,6 +8,7 @@ import (
 	"os/exec"
 	"path/filepath"
 	"regexp"
+	"runtime"
 	"strings"
 	"sync"
 
@@ -60,6 +61,9 @@ func childMain(chunkFile, resFile string) {
 		panic(err)
 	}
 	installHooks()
+	if runtime.GOMAXPROCS(0) < 4 {
+		runtime.GOMAXPROCS(4)
+	}
 	out, err := os.OpenFile(resFile, os.O_CREATE|os.O_WRONLY|os.O_APPEND, 0o644)
 	if err != nil {
 		panic(err)
@@ -135,7 +139,7 @@ func crashed(j job, stderr string, alone bool) *result {
 		how = "it was one of the cases running when the process died; re-run alone it did not crash"
 	}
 	r.fail("crash", fmt.Sprintf("the code under test crashed the process while executing '%s' (%s): %s; first hive.go frame: %s",
-		j.Desc, how, msg, where), map[string]string{"oracle": "crash", "where": where, "kind": strings.Fields(j.Desc + " x")[0]})
+		j.Desc, how, msg, where), map[string]string{"oracle": "crash", "what": "process-died", "where": where, "kind": strings.Fields(j.Desc + " x")[0]})
 	r.count("child-process-crash")
 
 	return r
